@@ -1,4 +1,5 @@
 import NA.Proofs.C12
+import NA.Spec.FlockPath
 import NA.Gen.LockSkel
 /-!
 # C12 — at most one approve or compare session per device at any time
@@ -122,17 +123,40 @@ theorem contender_fails_immediately (w0 : World) (h0 : Init w0) (as : List Actio
     (w'.procs j).prog = [.printErr, .exit 1] ∧ w'.table = (run as w0).table :=
   flock_busy _ (inv_run as w0 (inv_init w0 h0)) j i rest hr hp hb
 
-/-- How a holder can die: SIGKILL, or executing its `exit` (or running off the end of `Main`). -/
+/-- How a holder can die: SIGKILL, executing its `exit`, running off the end of `Main`, or taking
+a conditional early return. -/
 def dies (w : World) (i : Pid) : Action → Prop
   | .kill j => j = i
-  | .step j | .fail j => j = i ∧ ((w.procs i).prog = [] ∨ ∃ c rest, (w.procs i).prog = .exit c :: rest)
-  | .gc _ => False
+  | .step j => j = i ∧ endsNow (w.procs i) false
+  | .fail j => j = i ∧ endsNow (w.procs i) true
+  | .gc _ | .reap _ | .cexec _ => False
 
-/-- **The lock disappears with its holder.** After the holder exits or is killed, the lock file is
-free; it stays free through any further actions that are not flock attempts on it; and the next
-contender that attempts flock on it acquires it. -/
-theorem lock_released_on_death (w0 : World) (h0 : Init w0) (as : List Action) (i : Pid) (a : Action)
+/-- **The lock disappears with its holder** (as stated in the property: "when its holder exits or is
+killed, so a later run proceeds") is FALSE of the unchanged code for a short window, finding F-C12a:
+the child that the holder forks for its device session is, until it reaches `exec`, a copy of the
+holder with a copy of every descriptor, the lock file included, close-on-exec or not.  A holder
+SIGKILLed in that window leaves the flock with the half-spawned child; a run started now is turned
+away with `Approve in progress` although no run exists.  Reproduced on the real binaries (the child
+held before `execve` by `strace -e inject=execve:delay_enter`; once by chance under load).
+Schedule: `do-approve dev` runs up to the fork of its session (19 steps), is killed; `drc code/dev`
+then runs to its flock: refused.  When the child execs, the file is free. -/
+theorem lock_released_on_death_counterexample :
+    let w := run (List.replicate 19 (.step 0) ++ [.kill 0] ++ List.replicate 9 (.step 1))
+      (mkWorld [⟨.doApprove, "dev"⟩, ⟨.drc, "code/dev"⟩])
+    w.cloexec = true ∧ (w.procs 0).st = .killed ∧ w.preExec 0 = true ∧ w.table "dev" = some 0 ∧
+    (w.procs 1).lost = true ∧ (exec w (.cexec 0)).table "dev" = none := by
+  decide
+
+/-- What is proved instead — hypothesis = exact complement of the finding: at the moment of death
+the holder has no child between fork and exec (`preExec i = false`), and the lock file is opened
+close-on-exec (`os.OpenFile`).  Then at whatever phase the holder is killed, exits, or takes an
+early return — also while its ssh child is alive — the file is free at once, stays free through any
+further actions that are not flock attempts on it, and the next contender acquires it.
+(Full statement: the same without `hpre`.) -/
+theorem lock_released_on_death_partial (w0 : World) (h0 : Init w0) (hc : w0.cloexec = true)
+    (as : List Action) (i : Pid) (a : Action)
     (hh : ((run as w0).procs i).holds = true) (hd : dies (run as w0) i a)
+    (hpre : (run as w0).preExec i = false)
     (bs : List Action) (hquiet : noAttempt (w0.procs i).lockFile (exec (run as w0) a) bs)
     (j : Pid) (rest : List Step)
     (hlf : (w0.procs j).lockFile = (w0.procs i).lockFile)
@@ -141,7 +165,9 @@ theorem lock_released_on_death (w0 : World) (h0 : Init w0) (as : List Action) (i
     (exec (run as w0) a).table (w0.procs i).lockFile = none ∧
     ((exec (run bs (exec (run as w0) a)) (.step j)).procs j).holds = true := by
   have inv := inv_run as w0 (inv_init w0 h0)
-  have hrel := death_releases _ inv i hh
+  have hcf : (run as w0).childHasFd i = false := by
+    unfold World.childHasFd; rw [hpre, cloexec_run, hc]; simp
+  have hrel := death_releases _ inv i hh hcf
   rw [lockFile_run] at hrel
   have hfree : (exec (run as w0) a).table (w0.procs i).lockFile = none := by
     cases a with
@@ -149,12 +175,59 @@ theorem lock_released_on_death (w0 : World) (h0 : Init w0) (as : List Action) (i
     | step k => simp only [dies] at hd; obtain ⟨rfl, hprog⟩ := hd; exact hrel.2 false hprog
     | fail k => simp only [dies] at hd; obtain ⟨rfl, hprog⟩ := hd; exact hrel.2 true hprog
     | gc k => cases hd
+    | reap k => cases hd
+    | cexec k => cases hd
   refine ⟨hfree, ?_⟩
   have hfree' := free_run bs _ _ hfree hquiet
   have hlj : ((run bs (exec (run as w0) a)).procs j).lockFile = (w0.procs i).lockFile := by
     have : exec (run as w0) a = run (as ++ [a]) w0 := by simp [run]
     rw [this, ← hlf, lockFile_run, lockFile_run]
   exact (acquire_free _ j rest hr hp (by rw [hlj]; exact hfree')).1
+
+/-- **A stale lock ends with the child's `exec`.** At every point of every schedule (lock file opened
+close-on-exec): if process `i` is dead, then no lock file shows `i` as holder unless `i` has a child
+that is still between fork and exec; and as soon as that child execs, or ends, none does. -/
+theorem stale_lock_ends_with_child_exec (w0 : World) (h0 : Init w0) (hc : w0.cloexec = true)
+    (as : List Action) (i : Pid) (hdead : ((run as w0).procs i).st ≠ .running) (f : String) :
+    ((run as w0).preExec i = false ∨ (run as w0).kids i = false → (run as w0).table f ≠ some i) ∧
+    (exec (run as w0) (.cexec i)).table f ≠ some i ∧ (exec (run as w0) (.reap i)).table f ≠ some i := by
+  have inv := inv_run as w0 (inv_init w0 h0)
+  have hj : Justified w0 := by intro k g hk; rw [h0.table g] at hk; cases hk
+  exact stale_lock_ends _ inv (justified_run as w0 (inv_init w0 h0) hj) (by rw [cloexec_run]; exact hc) i hdead f
+
+/-- **Which process holds the descriptor matters.** Were the lock file opened WITHOUT close-on-exec,
+the ssh child would keep the descriptor across its `exec`: after SIGKILL of the parent the lock is
+still there for as long as the orphaned child lives, a new run is turned away, and only the child's
+end frees the file. -/
+theorem inherited_lock_survives_parent_counterexample :
+    let w0 : World := { mkWorld [⟨.doApprove, "dev"⟩, ⟨.drc, "code/dev"⟩] with cloexec := false }
+    let w := run (List.replicate 19 (.step 0) ++ [.cexec 0, .kill 0] ++ List.replicate 9 (.step 1)) w0
+    (w.procs 0).st = .killed ∧ w.kids 0 = true ∧ w.preExec 0 = false ∧ w.table "dev" = some 0 ∧
+    (w.procs 1).lost = true ∧
+    (exec w (.reap 0)).table "dev" = none := by
+  decide
+
+/-- … and with close-on-exec (what `os.OpenFile` does, and what the model of the code uses) the same
+schedule (child past its `exec`) frees the lock at the kill although the child lives on, and the new
+run gets it. -/
+example :
+    let w := run (List.replicate 19 (.step 0) ++ [.cexec 0, .kill 0] ++ List.replicate 9 (.step 1))
+      (mkWorld [⟨.doApprove, "dev"⟩, ⟨.drc, "code/dev"⟩])
+    (w.procs 0).st = .killed ∧ w.kids 0 = true ∧ w.table "dev" = some 1 ∧ (w.procs 1).holds = true := by
+  decide
+
+/-- **One holder, any number of contenders, any phases.** While process `i` holds the lock of a
+device — from any reachable point to any later point at which it still holds it — every protected
+step executed for that device (history, log files, status, device dialogue) is `i`'s own: whatever
+other runs exist, however many, wherever they stand, they leave all of it untouched. -/
+theorem holder_excludes_all_contenders (w0 : World) (h0 : Init w0) (as bs : List Action) (i : Pid)
+    (hh : ((run as w0).procs i).holds = true)
+    (hend : ((run bs (run as w0)).procs i).holds = true) :
+    ∃ np, (run bs (run as w0)).trace = np ++ (run as w0).trace ∧
+      ∀ ev ∈ np, ev.step.protected = true → ev.file = (w0.procs i).lockFile → ev.pid = i := by
+  have inv := inv_run as w0 (inv_init w0 h0)
+  obtain ⟨np, h1, h2⟩ := holder_excludes bs _ inv i hh hend
+  exact ⟨np, h1, fun ev hev hp hf => h2 ev hev hp (by rw [lockFile_run]; exact hf)⟩
 
 /-- **Same lock file for every spelling.** For a device name without `/`: the name itself, the path
 of its code file in any directory (`policies/current/code/NAME`) and of its IPv6 code file
@@ -165,6 +238,49 @@ theorem same_lock_file (name dir : String) (hne : name ≠ "") (hs : '/' ∉ nam
     Spec.lockFile ⟨f2, dir ++ "/" ++ name⟩ = name ∧
     Spec.lockFile ⟨f3, dir ++ "/ipv6" ++ "/" ++ name⟩ = name :=
   ⟨base_plain name hne hs, base_join dir name hne hs, base_join (dir ++ "/ipv6") name hne hs⟩
+
+/-- **Every spelling, one lock; different devices, different locks.** For ordinary device names
+(non-empty, no `/`, not `.`/`..`) and ANY spellings of them — bare name, relative or absolute path,
+`ipv6/` sub-directory, `./`, `../`, doubled slashes inside, trailing slashes — two invocations get
+the same lock file iff they spell the same device, whatever the front-ends.  (`Spells`,
+`base_eq_iff`: `path.Base s = name` iff `s` is `… /` + name + slashes.) -/
+theorem lock_file_iff_same_device (n1 n2 s1 s2 : String) (h1 : DeviceName n1) (h2 : DeviceName n2)
+    (hs1 : Spells n1 s1) (hs2 : Spells n2 s2) (f1 f2 : Front) :
+    Spec.lockFile ⟨f1, s1⟩ = Spec.lockFile ⟨f2, s2⟩ ↔ n1 = n2 := by
+  show base s1 = base s2 ↔ n1 = n2
+  rw [(base_eq_iff n1 s1 h1).2 hs1, (base_eq_iff n2 s2 h2).2 hs2]
+
+/-- The same for the full path `basedir/lock/NAME` that `device.SetLock` derives (`lockPath`, tied to
+the real function by the harness). -/
+theorem lock_path_iff_same_device (basedir n1 n2 s1 s2 : String) (h1 : DeviceName n1) (h2 : DeviceName n2)
+    (hs1 : Spells n1 s1) (hs2 : Spells n2 s2) :
+    (lockPath basedir s1 = basedir ++ "/lock/" ++ n1) ∧
+    (lockPath basedir s1 = lockPath basedir s2 ↔ n1 = n2) :=
+  ⟨lockPath_of_spelling basedir n1 s1 h1 hs1, same_lock_iff_same_device basedir n1 n2 s1 s2 h1 h2 hs1 hs2⟩
+
+/-- mutual exclusion across all spellings: two invocations that spell the same device never both
+hold, whatever the spellings and front-ends -/
+theorem mutex_all_spellings (specs : List Spec) (as : List Action) (i j : Pid) (hij : i ≠ j)
+    (si sj : Spec) (hi : specs[i]? = some si) (hj : specs[j]? = some sj)
+    (name : String) (hn : DeviceName name) (hsi : Spells name si.arg) (hsj : Spells name sj.arg) :
+    ¬ (((run as (mkWorld specs)).procs i).holds = true ∧
+       ((run as (mkWorld specs)).procs j).holds = true) := by
+  apply mutex_frontends specs as i j hij
+  simp only [mkWorld, hi, hj, mkProc, Spec.lockFile]
+  rw [(base_eq_iff name _ hn).2 hsi, (base_eq_iff name _ hn).2 hsj]
+
+/-- non-vacuity: nine spellings of `dev` -/
+example : DeviceName "dev" := by decide
+example : Spells "dev" "dev" ∧ Spells "dev" "policies/current/code/dev" ∧
+    Spells "dev" "/home/netspoc/policies/p7/code/ipv6/dev" ∧ Spells "dev" "code//dev///" ∧
+    Spells "dev" "policies/current/../p1/code/./dev/" :=
+  ⟨spells_intro "dev" "" "" (by decide) (Or.inl rfl),
+   spells_intro "dev" "policies/current/code/" "" (by decide) (Or.inr ⟨"policies/current/code", rfl⟩),
+   spells_intro "dev" "/home/netspoc/policies/p7/code/ipv6/" "" (by decide) (Or.inr ⟨"/home/netspoc/policies/p7/code/ipv6", rfl⟩),
+   spells_intro "dev" "code//" "///" (by decide) (Or.inr ⟨"code/", rfl⟩),
+   spells_intro "dev" "policies/current/../p1/code/./" "/" (by decide) (Or.inr ⟨"policies/current/../p1/code/.", rfl⟩)⟩
+example : lockPath "/b" "x/../code/./dev//" = "/b/lock/dev" ∧ lockPath "/b" "a/.." = "/b" ∧
+    lockPath "/b" "" = "/b/lock" ∧ lockPath "/b" "///" = "/b/lock" := by decide
 
 /-! ### Non-vacuity: the hypotheses are satisfiable, on interesting schedules -/
 
@@ -181,8 +297,8 @@ example : "dev" ≠ "" ∧ '/' ∉ "dev".toList := by decide
 /-- P0 runs up to the middle of its device session, P1 then runs to its end (loses), P3 (other
 device) acquires in parallel, P0 is killed, P2 acquires. -/
 def exSched : List Action :=
-  (List.replicate 15 (.step 0)) ++ (List.replicate 9 (.step 1)) ++ (List.replicate 8 (.step 3)) ++
-  [.kill 0] ++ (List.replicate 6 (.step 2))
+  (List.replicate 19 (.step 0)) ++ [.cexec 0] ++ (List.replicate 12 (.step 1)) ++
+  (List.replicate 12 (.step 3)) ++ [.kill 0] ++ (List.replicate 9 (.step 2))
 
 set_option maxRecDepth 8000 in
 example : ((run exSched (mkWorld exSpecs)).procs 1).lost = true ∧
@@ -192,25 +308,25 @@ example : ((run exSched (mkWorld exSpecs)).procs 1).lost = true ∧
     ((run exSched (mkWorld exSpecs)).procs 3).holds = true := by decide
 
 /-- hypotheses of `lock_released_on_death` and `contender_fails_immediately` on that schedule -/
-example : ((run (List.replicate 15 (.step 0)) (mkWorld exSpecs)).procs 0).holds = true ∧
-    dies (run (List.replicate 15 (.step 0)) (mkWorld exSpecs)) 0 (.kill 0) := by
-  constructor
-  · decide
-  · rfl
-example : ((run (List.replicate 15 (.step 0) ++ List.replicate 5 (.step 1)) (mkWorld exSpecs)).procs 1).prog.head?
+example : ((run (List.replicate 19 (.step 0) ++ [.cexec 0]) (mkWorld exSpecs)).procs 0).holds = true ∧
+    (run (List.replicate 19 (.step 0) ++ [.cexec 0]) (mkWorld exSpecs)).preExec 0 = false ∧
+    dies (run (List.replicate 19 (.step 0) ++ [.cexec 0]) (mkWorld exSpecs)) 0 (.kill 0) := by
+  refine ⟨by decide, by decide, rfl⟩
+example : ((run (List.replicate 19 (.step 0) ++ List.replicate 8 (.step 1)) (mkWorld exSpecs)).procs 1).prog.head?
     = some .flock ∧
-    (run (List.replicate 15 (.step 0) ++ List.replicate 5 (.step 1)) (mkWorld exSpecs)).table "dev" = some 0 := by
+    (run (List.replicate 19 (.step 0) ++ List.replicate 8 (.step 1)) (mkWorld exSpecs)).table "dev" = some 0 := by
   decide
 
 /-- hypotheses of `effects_require_lock`: the 14th step of `do-approve` is a protected one -/
 example : (newEvents (run (List.replicate 13 (.step 0)) (mkWorld exSpecs)) (.step 0)).any
     (fun ev => ev.step.protected) = true := by decide
 
+set_option maxRecDepth 8000 in
 /-- hypotheses of `sessions_never_overlap` / `runs_never_interleave`: P0 has run to its end (history,
 log, device, status written), P1 (other spelling, other front-end) then reaches its first protected
 step: an earlier protected event of another pid for the same file is in the trace. -/
 example :
-    let w := run (List.replicate 23 (.step 0) ++ List.replicate 8 (.step 1)) (mkWorld exSpecs)
+    let w := run (List.replicate 19 (.step 0) ++ [.cexec 0] ++ List.replicate 10 (.step 0) ++ List.replicate 11 (.step 1)) (mkWorld exSpecs)
     (newEvents w (.step 1)).any (fun ev => ev.step.protected &&
       w.trace.any (fun ev' => ev'.step.protected && ev'.file == ev.file && ev'.pid != ev.pid)) = true := by
   decide
@@ -218,31 +334,32 @@ example :
 /-- hypotheses of `lock_released_on_death` with `bs = []`: P2 stands at its flock step when the
 holder P0 is killed. -/
 example :
-    let w := run (List.replicate 15 (.step 0) ++ List.replicate 5 (.step 2)) (mkWorld exSpecs)
+    let w := run (List.replicate 19 (.step 0) ++ [.cexec 0] ++ List.replicate 8 (.step 2)) (mkWorld exSpecs)
     (w.procs 0).holds = true ∧ (w.procs 2).st = .running ∧ (w.procs 2).prog.head? = some .flock ∧
     ((mkWorld exSpecs).procs 2).lockFile = ((mkWorld exSpecs).procs 0).lockFile := by
   decide
 example (w : World) : noAttempt "dev" w [] := trivial
 
-/-! ## Part B: the regenerated skeleton -/
+/-! ## Part B: the regenerated skeleton and call graph -/
 
 open NA.Gen.LockSkel in
 /-- `device.SetLock` is, call for call: lock directory `basedir/lock`, `os.Mkdir` of it (error
-ignored), lock file `lockDir/path.Base(fname)`, `os.OpenFile(lockFile, O_CREATE|O_RDONLY)` with
-early return on error, `syscall.Flock(fd of that file, LOCK_EX|LOCK_NB)`, on error a new error
-"Approve in progress for …", and `return fh, err`. -/
+ignored), lock file `lockDir/path.Base(fname)`, `os.OpenFile(lockFile, O_CREATE|O_RDONLY)` (Go's
+`os.OpenFile` opens close-on-exec) with early return on error, `syscall.Flock(fd of that file,
+LOCK_EX|LOCK_NB)`, on error a new error "Approve in progress for …", and `return fh, err`.  The last
+component says which calls are sinks. -/
 theorem setlock_skeleton : setLockParams = ["fname", "cfg"] ∧ setLock = [
-    ⟨"path.Join", ["cfg.BaseDir", "\"lock\""], ["lockDir"], []⟩,
-    ⟨"os.Mkdir", ["lockDir", "0755"], [], []⟩,
-    ⟨"path.Base", ["fname"], [], []⟩,
-    ⟨"path.Join", ["lockDir", "path.Base(fname)"], ["lockFile"], []⟩,
-    ⟨"os.OpenFile", ["lockFile", "os.O_CREATE | os.O_RDONLY", "0644"], ["fh", "err"], []⟩,
-    ⟨"return", ["nil", "err"], [], ["if err != nil"]⟩,
-    ⟨"fh.Fd", [], [], []⟩,
-    ⟨"int", ["fh.Fd()"], [], []⟩,
-    ⟨"syscall.Flock", ["int(fh.Fd())", "syscall.LOCK_EX | syscall.LOCK_NB"], ["err"], []⟩,
-    ⟨"fmt.Errorf", ["\"Approve in progress for %s\"", "fname"], ["err"], ["if err != nil"]⟩,
-    ⟨"return", ["fh", "err"], [], []⟩] := by
+    ⟨"path.Join", ["cfg.BaseDir", "\"lock\""], ["lockDir"], [], []⟩,
+    ⟨"os.Mkdir", ["lockDir", "0755"], [], [], ["os.Mkdir"]⟩,
+    ⟨"path.Base", ["fname"], [], [], []⟩,
+    ⟨"path.Join", ["lockDir", "path.Base(fname)"], ["lockFile"], [], []⟩,
+    ⟨"os.OpenFile", ["lockFile", "os.O_CREATE | os.O_RDONLY", "0644"], ["fh", "err"], [], ["os.OpenFile"]⟩,
+    ⟨"return", ["nil", "err"], [], ["if err != nil"], []⟩,
+    ⟨"fh.Fd", [], [], [], []⟩,
+    ⟨"int", ["fh.Fd()"], [], [], []⟩,
+    ⟨"syscall.Flock", ["int(fh.Fd())", "syscall.LOCK_EX | syscall.LOCK_NB"], ["err"], [], ["syscall.Flock"]⟩,
+    ⟨"fmt.Errorf", ["\"Approve in progress for %s\"", "fname"], ["err"], ["if err != nil"], []⟩,
+    ⟨"return", ["fh", "err"], [], [], []⟩] := by
   decide
 
 /-- all calls of `fn` in a site list, with their arguments and assigned variables -/
@@ -257,7 +374,8 @@ theorem flock_flags_exclusive_nonblocking :
   decide
 
 open NA.Gen.LockSkel in
-/-- The lock file is `basedir/lock/` + `path.Base(first parameter)`, and that file is the one opened. -/
+/-- The lock file is `basedir/lock/` + `path.Base(first parameter)`, and that file is the one opened
+— the derivation that `NA.Flock.lockPath` models. -/
 theorem lock_file_is_base_of_argument :
     setLockParams.head? = some "fname" ∧
     callsOf "path.Join" setLock =
@@ -266,19 +384,31 @@ theorem lock_file_is_base_of_argument :
   decide
 
 open NA.Gen.LockSkel in
-/-- `device.ApproveOrCompare`: opens (rotates) the log file, then runs compare or approve, then closes
-the connection — the in-lining used by `expand` for `.session`. -/
+/-- `device.ApproveOrCompare`: the calls from which a writer is reachable are, in order: open (rotate)
+the run log, find the device type (may abort with a message in the run log), compare | approve,
+close the connection, abort — all inside the closure given to `HandleAbort`.  This is the in-lining
+used by `expand` for `.session`. -/
 theorem approveOrCompare_skeleton :
-    (approveOrCompare.filter (fun s => !(harmless.contains s.fn) && s.fn != "return")).map (·.fn) =
+    (approveOrCompare.filter (fun s => s.writers != [])).map (·.fn) =
       ["errlog.SetStderrLog", "getRealDevice", "s.compare", "s.approve", "s.CloseConnection",
        "errlog.Abort", "errlog.HandleAbort"] := by
   decide
 
-/-- abstraction of the regenerated `drc.Main`, one-argument mode -/
-def drcSteps : List Step :=
-  expand (stepsOf (selectCase "switch len(args)" "case 1" NA.Gen.LockSkel.drcMain))
+open NA.Gen.LockSkel in
+/-- `abort` prints to stderr and returns 1 (used by `returnCode`). -/
+theorem abort_returns_1 :
+    drcAbort.map (fun s => (s.fn, s.args.head?, s.writers)) =
+      [("fmt.Fprintf", some "os.Stderr", []), ("return", some "1", [])] ∧
+    doapproveAbort.map (fun s => (s.fn, s.args.head?, s.writers)) =
+      [("fmt.Fprintf", some "os.Stderr", []), ("return", some "1", [])] := by
+  decide
 
-/-- abstraction of the regenerated `doapprove.Main` -/
+/-- abstraction of the regenerated `drc.Main`: every path of the device modes (usage error, `-h`,
+`-v`, one argument); the two-file mode `drc FILE1 FILE2` (no device, no lock) is dropped -/
+def drcSteps : List Step :=
+  expand (stepsOf (dropMode "switch len(args)" "case 2" "case 1" NA.Gen.LockSkel.drcMain))
+
+/-- abstraction of the regenerated `doapprove.Main`: every path -/
 def doApproveSteps : List Step := expand (stepsOf NA.Gen.LockSkel.doapproveMain)
 
 /-- The step list of the model of `drc` is what the source says today. -/
@@ -287,18 +417,77 @@ theorem drc_prog_matches_source : drcSteps = drcProg := by decide
 /-- The step list of the model of `do-approve` is what the source says today. -/
 theorem doapprove_prog_matches_source : doApproveSteps = doApproveProg := by decide
 
-/-- `drc.Main`: the lock is taken, and its error checked, before the log file is opened or the device
-is touched; the lock file is kept open by a `defer`; nothing unknown is called. -/
+/-- `drc.Main`: on every path — including the early returns for a usage error, `-h`, `-v` — the
+lock is taken, and its error checked, before the log file is opened or the device is touched; the
+lock file is kept open by a `defer`; no call from which a writer is reachable is left unclassified. -/
 theorem lock_before_effects_drc : safe false false drcSteps = true := by decide
 
-/-- `doapprove.Main`: the lock is taken, and its error checked, before history, log, device and
-status are touched; the lock file is kept open by a `defer`; nothing unknown is called. -/
+/-- `doapprove.Main`: on every path — including usage errors, unknown device, and the final
+`return 1 | 0` — the lock is taken, and its error checked, before history, log, device and status
+are touched; kept open by a `defer`; no call from which a writer is reachable is left unclassified. -/
 theorem lock_before_effects_doapprove : safe false false doApproveSteps = true := by decide
+
+/-! ### The call graph: every place that writes or talks (round 3) -/
+
+set_option maxRecDepth 16000 in
+open NA.Gen.LockSkel in
+/-- **The boundary of the module is closed.** Every function outside the module that is called
+from code reachable from `main` of drc or do-approve is either in the table of harmless functions
+(string, path, parsing, formatting, reads, terminal output, `Error()`/`Close()` methods) or one of
+the sink APIs whose call sites are listed in `sinkSites`.  A call of any other foreign function
+— a new way to write — fails here. -/
+theorem boundary_closed :
+    boundary.all (fun c => harmlessExt c || sinkApis.contains c) = true := by decide
+
+open NA.Gen.LockSkel in
+/-- **Every write site is known.** The module functions that contain a loud sink site (one that is
+not a print to stderr/stdout or into a local buffer) are exactly the 24 functions of the table
+`writerCategory`: lock file, history, status, run log and its creation and rotation, the session
+logs `.login` `.config` `.change` `.cmp`, the ssh / https / scp dialogue with the device and the
+temporary files for scp.  `writerFns` is re-derived here from `sinkSites`. -/
+theorem write_sites_classified :
+    writerFns.all (fun f => (writerCategory.map (·.1)).contains f) = true ∧
+    (writerCategory.map (·.1)).all (fun f => writerFns.contains f) = true ∧
+    writerFns.all (fun f => sinkSites.any (fun s => !s.quiet && s.fn == f)) = true ∧
+    sinkSites.all (fun s => s.quiet || writerFns.contains s.fn) = true := by
+  decide
+
+open NA.Gen.LockSkel in
+/-- Nothing is written before `Main` runs or beside it: the `main` functions are `os.Exit(Main())`,
+no package initialiser reaches a writer, the module has no `go` statement. -/
+theorem nothing_outside_main :
+    cmdDrcMain.map (·.fn) = ["drc.Main", "os.Exit"] ∧
+    cmdDoApproveMain.map (·.fn) = ["doapprove.Main", "os.Exit"] ∧
+    ((cmdDrcMain ++ cmdDoApproveMain).filter (·.fn = "os.Exit")).all (fun s => s.writers = []) = true ∧
+    initWriters = [] ∧ goStmts = [] := by
+  decide
+
+/-- the calls of a `Main` from which the call graph reaches a writer, with what they become -/
+def writerCalls (sites : List Site) : List (String × Option Step) :=
+  (sites.filter (fun s => s.writers != [])).map fun s => (s.fn, classify s)
+
+open NA.Gen.LockSkel in
+/-- **Every call that can write or talk is one of the protected steps.** In `drc.Main` (device
+modes) and `doapprove.Main` the calls from which any writer function is reachable are exactly:
+`SetLock` (writes only the lock file), then `openHistoryLog`, `logHistory`, `ApproveOrCompare`,
+`status.SetCompare|SetApprove` — each abstracted to a protected step, which `lock_before_effects_*`
+places between acquisition and release on every path.  Every other call of the two functions
+(flag parsing, usage, `-v`, config, policy lookup, unknown-device check, messages) reaches no writer. -/
+theorem every_writing_call_is_protected :
+    writerCalls (dropMode "switch len(args)" "case 2" "case 1" drcMain) =
+      [("device.SetLock", some .setLock), ("device.ApproveOrCompare", some .session)] ∧
+    writerCalls doapproveMain =
+      [("device.SetLock", some .setLock), ("openHistoryLog", some .histOpen),
+       ("logHistory", some (.hist "\"START:\"")), ("logHistory", some (.hist "\"POLICY:\"")),
+       ("device.ApproveOrCompare", some .session), ("logHistory", some (.hist "\"RES:\"")),
+       ("status.SetCompare", some .status), ("status.SetApprove", some .status),
+       ("logHistory", some (.hist "\"END:\""))] := by
+  decide
 
 open NA.Gen.LockSkel in
 /-- Both front-ends lock the device they then work on: `drc` passes the same `fname := args[0]` to
 `SetLock` and `ApproveOrCompare`; `do-approve` locks `devName := args[1]` and works on
-`codeFile := path.Join(dir, "code", devName)`, whose base is `devName` (`same_lock_file`). -/
+`codeFile := path.Join(dir, "code", devName)`, a spelling of `devName` (`lock_file_iff_same_device`). -/
 theorem same_device_locked_and_approved :
     callsOf "device.SetLock" drcMain = [(["fname", "cfg"], ["lockFH", "err"])] ∧
     (callsOf "device.ApproveOrCompare" drcMain).map (·.1.getD 1 "") = ["fname"] ∧
@@ -313,10 +502,15 @@ theorem same_device_locked_and_approved :
 def obligations : List Lean.Name := [
   ``mutex, ``mutex_frontends, ``effects_require_lock, ``sessions_never_overlap, ``runs_never_interleave,
   ``loser_no_effects,
-  ``contender_fails_immediately, ``lock_released_on_death, ``same_lock_file,
+  ``contender_fails_immediately, ``holder_excludes_all_contenders, ``lock_released_on_death_partial,
+  ``lock_released_on_death_counterexample, ``stale_lock_ends_with_child_exec,
+  ``inherited_lock_survives_parent_counterexample,
+  ``same_lock_file, ``lock_file_iff_same_device, ``lock_path_iff_same_device, ``mutex_all_spellings,
   ``setlock_skeleton, ``flock_flags_exclusive_nonblocking, ``lock_file_is_base_of_argument,
-  ``approveOrCompare_skeleton, ``drc_prog_matches_source, ``doapprove_prog_matches_source,
-  ``lock_before_effects_drc, ``lock_before_effects_doapprove, ``same_device_locked_and_approved,
-  ``NA.Lock.inv_exec, ``NA.Lock.next_facts]
+  ``approveOrCompare_skeleton, ``abort_returns_1, ``drc_prog_matches_source, ``doapprove_prog_matches_source,
+  ``lock_before_effects_drc, ``lock_before_effects_doapprove,
+  ``boundary_closed, ``write_sites_classified, ``nothing_outside_main, ``every_writing_call_is_protected,
+  ``same_device_locked_and_approved,
+  ``NA.Lock.inv_exec, ``NA.Lock.next_facts, ``NA.Lock.justified_exec, ``NA.Flock.base_eq_iff]
 
 end NA.C12
